@@ -65,10 +65,12 @@ func (a *application) start(mode gen.ApplicationMode, options gen.ApplicationOpt
 		lib.VerifPoint("app.start.spawn", a)
 		pid, err := a.node.spawn(item.Factory, opts)
 		if err != nil {
-			a.group.Range(func(pid gen.PID, _ bool) bool {
+			// Kill unregisters a sleeping process synchronously, which
+			// calls a.terminate and takes the write lock of a.group:
+			// never call it while ranging over the group
+			for _, pid := range a.members() {
 				a.node.Kill(pid)
-				return true
-			})
+			}
 			lib.VerifPoint("app.start.rollback", a)
 			atomic.StoreInt32(&a.state, int32(gen.ApplicationStateLoaded))
 			return err
@@ -130,14 +132,14 @@ func (a *application) stop(force bool, timeout time.Duration) error {
 
 	lib.VerifPoint("app.stop.tell", a)
 
-	a.group.Range(func(pid gen.PID, _ bool) bool {
+	// see start: Kill must not be called while ranging over the group
+	for _, pid := range a.members() {
 		if force {
 			a.node.Kill(pid)
 		} else {
 			a.node.SendExit(pid, gen.TerminateReasonShutdown)
 		}
-		return true
-	})
+	}
 
 	lib.VerifPoint("app.stop.reason", a)
 	if force {
@@ -248,6 +250,15 @@ func (a *application) terminate(pid gen.PID, reason error) {
 		return
 	}
 	a.registerAppRoute() // new state for the app
+}
+
+func (a *application) members() []gen.PID {
+	pids := []gen.PID{}
+	a.group.Range(func(pid gen.PID, _ bool) bool {
+		pids = append(pids, pid)
+		return true
+	})
+	return pids
 }
 
 func (a *application) info() gen.ApplicationInfo {
